@@ -44,6 +44,8 @@ func runC15(w *mon.Worker) {
 	mon.ClearProb()
 	for i := 0; i < w.Share(w.Scale(1600, 120000)); i++ {
 		w.Case("gated", nil, ccGatedCase)
+		w.Case("validator-reentry", nil, ccValidatorReentryCase)
+		w.Case("ctx-error-identity", nil, ccCtxIdentityCase)
 	}
 }
 
@@ -218,6 +220,7 @@ type ccWaiterRec struct {
 }
 
 var errDelivered = errors.New("delivered on errCh")
+var errCtxCause = errors.New("cause attached to the context (not the context's error)")
 
 func (wr *ccWaiterRec) satisfied(v int, cmp func(a, b int) bool) bool {
 	switch wr.kind {
@@ -269,7 +272,19 @@ func ccWaitersCase(c *mon.Case) {
 	kinds := []string{"value", "change", "empty", "validator", "validator"}
 	for i := range waiters {
 		wr := &ccWaiterRec{id: i, kind: kinds[r.IntN(len(kinds))]}
-		wr.ctx, wr.cancel = context.WithCancel(context.Background())
+		switch r.IntN(4) {
+		case 0:
+			// cancelled with a cause: the waiter still has to report the context's error, ctx.Err()
+			cctx, ccancel := context.WithCancelCause(context.Background())
+			wr.ctx, wr.cancel = cctx, func() { ccancel(errCtxCause) }
+		case 1:
+			// a plain child of a context cancelled with a cause
+			pctx, pcancel := context.WithCancelCause(context.Background())
+			cctx, ccancel := context.WithCancel(pctx)
+			wr.ctx, wr.cancel = cctx, func() { pcancel(errCtxCause); ccancel() }
+		default:
+			wr.ctx, wr.cancel = context.WithCancel(context.Background())
+		}
 		wr.old = initial
 		if r.IntN(2) == 0 {
 			wr.old = 0
@@ -305,6 +320,10 @@ func ccWaitersCase(c *mon.Case) {
 			default:
 				wr.val, wr.err = ctr.WaitValueWithValidator(wr.ctx, func(v int) (bool, error) {
 					wr.writesAtVal.Store(writesDone.Load())
+					if wr.id%2 == 1 {
+						// a validator may consult the container it waits on
+						ctr.GetValue()
+					}
 					if wr.validatorEr != nil && v >= wr.minVal {
 						return false, wr.validatorEr
 					}
@@ -392,11 +411,33 @@ func ccWaitersCase(c *mon.Case) {
 	close(start)
 	wdone := make(chan struct{})
 	go func() { wwg.Wait(); close(wdone) }()
-	select {
-	case <-wdone:
-	case <-time.After(20 * time.Second):
-		c.Inconclusive("writers did not finish")
-		return
+	for waited := 0; ; waited++ {
+		fin := false
+		select {
+		case <-wdone:
+			fin = true
+		case <-time.After(200 * time.Millisecond):
+		}
+		if fin {
+			break
+		}
+		if mon.TakeSnapshot(false).NotQuiet == 0 && mon.QuiesceConfirmed(100*time.Millisecond, time.Second) {
+			select {
+			case <-wdone:
+				fin = true
+			default:
+			}
+			if fin {
+				break
+			}
+			// writers only ever block on the cell's own mutex: in a quiescent process their writes never complete
+			c.Violate("lost-wakeup", "ccontainer-write-never-completes", "the process is quiescent but %d of %d writes have not completed (SetValue/SwapValue blocked for ever; validators of odd-numbered waiters call GetValue)", int64(nWriters*perWriter)-writesDone.Load(), nWriters*perWriter)
+			return
+		}
+		if waited > 100 {
+			c.Inconclusive("writers did not finish")
+			return
+		}
 	}
 	if !mon.Quiesce(10 * time.Second) {
 		c.Inconclusive("no quiescence after the writes")
@@ -582,5 +623,174 @@ func ccGatedCase(c *mon.Case) {
 	}
 	if err != nil || val != 7 {
 		c.Violate("ccontainer", "waiter-value-violates-condition", "gated template: waiter returned (%d, %v), want (7, nil)", val, err)
+	}
+}
+
+// ccValidatorReentryCase: the waiter's condition is user code. It may read the container it waits on, and a write may
+// complete while it is being evaluated; in both situations the waiter returns once the content satisfies the condition.
+func ccValidatorReentryCase(c *mon.Case) {
+	r := c.Rng
+	variant := r.IntN(3)
+	initial := 0
+	if variant == 0 {
+		initial = 5 + r.IntN(5)
+	}
+	ctr := ccontainer.NewCContainer(initial)
+	ctx, cancel := context.WithCancel(context.Background())
+	defer cancel()
+	inValidator := make(chan struct{})
+	written := make(chan struct{})
+	var once sync.Once
+	defer once.Do(func() { close(written) })
+	var first atomic.Bool
+	var returned, wrote atomic.Bool
+	var val int
+	var err error
+	c.Go("w", func() {
+		c.Rec("w", "call WaitValueWithValidator", variant)
+		val, err = ctr.WaitValueWithValidator(ctx, func(v int) (bool, error) {
+			switch variant {
+			case 0:
+				// reads the container (same content or newer)
+				if g := ctr.GetValue(); g < 5 {
+					return false, fmt.Errorf("GetValue inside the validator returned %d", g)
+				}
+			default:
+				if !first.Swap(true) {
+					close(inValidator)
+					select {
+					case <-written:
+					case <-ctx.Done():
+					}
+				}
+			}
+			return v >= 5, nil
+		}, nil)
+		c.Rec("w", "return", fmt.Sprint(val, err))
+		returned.Store(true)
+	})
+	if variant != 0 {
+		select {
+		case <-inValidator:
+		case <-time.After(5 * time.Second):
+			c.Inconclusive("validator never called")
+			return
+		}
+		c.Go("writer", func() {
+			c.Rec("writer", "write 7 while the waiter evaluates its condition on the sampled value", nil)
+			if variant == 1 {
+				ctr.SetValue(7)
+			} else {
+				ctr.SwapValue(func(int) int { return 7 })
+			}
+			wrote.Store(true)
+			c.Rec("writer", "write returned", nil)
+			once.Do(func() { close(written) })
+		})
+	}
+	c.Count("validator_reentry_templates", 1)
+	c.NonTrivial()
+	c.Mix(uint64(variant))
+	if !mon.Quiesce(5 * time.Second) {
+		c.Inconclusive("no quiescence")
+		return
+	}
+	if !returned.Load() {
+		if mon.QuiesceConfirmed(100*time.Millisecond, 5*time.Second) && !returned.Load() {
+			if variant == 0 {
+				c.Violate("lost-wakeup", "ccontainer-waiter-blocked-while-satisfied", "the cell holds %d, which satisfies the condition v>=5, but the waiter whose validator reads the container with GetValue is blocked in a quiescent process", initial)
+			} else {
+				c.Violate("lost-wakeup", "ccontainer-write-blocked-by-evaluating-waiter", "a write issued while a waiter evaluates its condition on the sampled value has not completed (returned=%v) and the waiter is blocked in a quiescent process: the write between sample and block is lost to the waiter", wrote.Load())
+			}
+		}
+		return
+	}
+	want := 7
+	if variant == 0 {
+		want = initial
+	}
+	if err != nil || val != want {
+		c.Violate("ccontainer", "waiter-value-violates-condition", "validator re-entry template %d: waiter returned (%d, %v), want (%d, nil)", variant, val, err, want)
+	}
+}
+
+// ccCtxIdentityCase: a waiter interrupted by its context returns that context's error (ctx.Err()), whatever way
+// the context ended: cancelled, cancelled with a cause, parent cancelled with a cause, deadline passed (with or without cause).
+func ccCtxIdentityCase(c *mon.Case) {
+	r := c.Rng
+	ctxKind := r.IntN(6)
+	wKind := r.IntN(4)
+	ctr := ccontainer.NewCContainer(0)
+	var ctx context.Context
+	fire := func() {}
+	pre := false
+	switch ctxKind {
+	case 0:
+		cctx, ccancel := context.WithCancel(context.Background())
+		ctx, fire = cctx, ccancel
+	case 1:
+		cctx, ccancel := context.WithCancelCause(context.Background())
+		ctx, fire = cctx, func() { ccancel(errCtxCause) }
+	case 2:
+		pctx, pcancel := context.WithCancelCause(context.Background())
+		cctx, ccancel := context.WithCancel(pctx)
+		defer ccancel()
+		ctx, fire = cctx, func() { pcancel(errCtxCause) }
+	case 3:
+		// deadline already passed at the call
+		cctx, ccancel := context.WithDeadline(context.Background(), time.Unix(1, 0))
+		defer ccancel()
+		ctx, pre = cctx, true
+	case 4:
+		cctx, ccancel := context.WithDeadlineCause(context.Background(), time.Unix(1, 0), errCtxCause)
+		defer ccancel()
+		ctx, pre = cctx, true
+	default:
+		// a deadline that passes while the waiter is blocked; the oracle only looks at the returned error
+		cctx, ccancel := context.WithTimeoutCause(context.Background(), time.Duration(1+r.IntN(3))*time.Millisecond, errCtxCause)
+		defer ccancel()
+		ctx = cctx
+	}
+	defer fire()
+	var returned atomic.Bool
+	var err error
+	c.Go("w", func() {
+		c.Rec("w", "call", fmt.Sprint(wKind, ctxKind))
+		switch wKind {
+		case 0:
+			_, err = ctr.WaitValue(ctx, nil)
+		case 1:
+			_, err = ctr.WaitValueChange(ctx, 0, nil)
+		case 2:
+			ctr.SetValue(3)
+			err = ctr.WaitValueEmpty(ctx, nil)
+		default:
+			_, err = ctr.WaitValueWithValidator(ctx, func(v int) (bool, error) { return v >= 5, nil }, nil)
+		}
+		c.Rec("w", "return", fmt.Sprint(err))
+		returned.Store(true)
+	})
+	if !pre && ctxKind != 5 {
+		if !mon.Quiesce(5 * time.Second) {
+			c.Inconclusive("no quiescence")
+			return
+		}
+		if returned.Load() {
+			c.Violate("ccontainer", "waiter-returned-without-source", "waiter kind %d returned %v although the cell never satisfied its condition and its context is live", wKind, err)
+			return
+		}
+		fire()
+	}
+	c.Count("ctx_identity_templates", 1)
+	c.NonTrivial()
+	c.Mix(uint64(ctxKind)<<4 | uint64(wKind))
+	if !c.WaitActors(5 * time.Second) {
+		if mon.Quiesce(5*time.Second) && !returned.Load() {
+			c.Violate("lost-wakeup", "ccontainer-waiter-ignores-cancel", "waiter kind %d is still blocked in a quiescent process after its context (kind %d) ended", wKind, ctxKind)
+		}
+		return
+	}
+	if err != ctx.Err() {
+		c.Violate("ccontainer", "waiter-foreign-error", "waiter kind %d returned %v after its context (kind %d) ended; the context's error is %v", wKind, err, ctxKind, ctx.Err())
 	}
 }
